@@ -479,15 +479,18 @@ class C04(Check):
         for k, c in enumerate(cs):
             steps = all_steps[k]
             m, fm, fi = [], [], []
+            covered = 1       # a history is within the theorem's hypotheses iff every step is
             for ln, r in zip(lines[pos:pos + len(steps)], outs[pos:pos + len(steps)]):
                 r = self.parse_out(ln, r)
                 m.append(r[0])
+                if len(r) < 5 or r[4] != 1:
+                    covered = 0
                 fm.extend(x for x in names(r[1]) if x not in fm)
                 fi.extend(x for x in names(r[2]) if x not in fi)
             pos += len(steps)
             ho = HistObs(o for _, o, _ in steps)
             ho.cached = subs_all[k][1]
-            res.append((c, ho, m, fm, fi, []))
+            res.append((c, ho, m, fm, fi, [[], covered]))
         return res
 
     def run_history(self, c, subs, wanted):
